@@ -151,7 +151,15 @@ type c01 struct {
 	failed  bool
 	// leaf reads of short-reading leaves during the current boundary operation
 	leafCalls int64
+	// fault injection: a short-reading leaf may fail (sticky) from its failFrom-th read on. faultFired is set
+	// when the current operation touched the failing leaf; such an operation is judged by the weak oracle only
+	// (delivered bits are right, EOF only at the logical end) and ends the history.
+	faultFired bool
+	weak       bool
+	ended      bool
 }
+
+var errInjected = errors.New("injected leaf read error")
 
 func (c *c01) cleanupCase() {
 	for _, cf := range c.cancels {
@@ -171,6 +179,11 @@ func (c *c01) logf(format string, a ...any) {
 
 func (c *c01) fail(sig string, format string, a ...any) {
 	if c.failed {
+		return
+	}
+	if c.faultFired && !c.weak {
+		// the strong oracle does not apply to an operation whose leaf failed underneath
+		c.ended = true
 		return
 	}
 	c.failed = true
@@ -221,11 +234,18 @@ type shortRS struct {
 	max         int
 	eofWithData bool
 	c           *c01
+	reads       int64
+	failFrom    int64 // 0 = never
 }
 
 const leafStepBudget = 20_000_000
 
 func (s *shortRS) Read(p []byte) (int, error) {
+	s.reads++
+	if s.failFrom > 0 && s.reads >= s.failFrom {
+		s.c.faultFired = true
+		return 0, errInjected
+	}
 	s.c.leafCalls++
 	if s.c.leafCalls > leafStepBudget {
 		// an error rather than a panic: under a context wrapper this runs on ctxreadseeker's goroutine
@@ -258,7 +278,14 @@ func (c *c01) genByte(depth int, maxBytes int) *byteNode {
 			mx := gen.Pick(r, []int{1, 2, 3, 7, 64, 1000})
 			ewd := r.Bool()
 			c.kinds["short-reader"] = true
-			return &byteNode{r: &shortRS{r: bytes.NewReader(b), max: mx, eofWithData: ewd, c: c}, m: b, shape: fmt.Sprintf("short%d(%d)", mx, len(b)), endExact: true}
+			leaf := &shortRS{r: bytes.NewReader(b), max: mx, eofWithData: ewd, c: c}
+			shape := fmt.Sprintf("short%d(%d)", mx, len(b))
+			if r.Intn(3) == 0 {
+				leaf.failFrom = 1 + int64(r.Intn(40))
+				c.kinds["faulty-reader"] = true
+				shape = fmt.Sprintf("short%dfail%d(%d)", mx, leaf.failFrom, len(b))
+			}
+			return &byteNode{r: leaf, m: b, shape: shape, endExact: true}
 		}
 		c.kinds["bytes.Reader"] = true
 		return &byteNode{r: bytes.NewReader(b), m: b, shape: fmt.Sprintf("bytes(%d)", len(b)), endExact: true}
@@ -518,6 +545,10 @@ func (c *c01) pickOff(n int64) int64 {
 func (c *c01) checkRead(op string, nd *bitNode, p []byte, n, off, m int64, err error) {
 	L := nd.m.n
 	c.run.Count("op:"+op, 1)
+	if c.faultFired {
+		c.weakRead(op, L, n, off, m, err, func() (int64, bool) { return eqBits(p, m, nd.m, off) })
+		return
+	}
 	if m < 0 || m > n {
 		c.fail(op+":count-out-of-range", "%s(n=%d, off=%d) on len %d returned count %d (err %v)", op, n, off, L, m, err)
 		return
@@ -557,6 +588,35 @@ func (c *c01) checkRead(op string, nd *bitNode, p []byte, n, off, m int64, err e
 	}
 	if m < n && err == nil {
 		c.run.Count("read:short-nil", 1)
+	}
+}
+
+// weakRead judges a read during which the leaf failed: whatever was delivered must still be the right bits
+// inside the logical range, end-of-data may only be reported at the logical end (an I/O error must not be
+// turned into EOF), and a read that delivers nothing must say why.
+func (c *c01) weakRead(op string, L, n, off, m int64, err error, eq func() (int64, bool)) {
+	c.weak = true
+	defer func() { c.weak = false; c.ended = true }()
+	c.run.Count("fault:reads-judged", 1)
+	if m < 0 || m > n || (off <= L && off+m > L) || (off > L && m != 0) {
+		c.fail(op+":fault:count-out-of-range", "%s(n=%d, off=%d) on len %d with a failing leaf returned count %d (err %v)", op, n, off, L, m, err)
+		return
+	}
+	if m > 0 {
+		if i, ok := eq(); !ok {
+			c.fail(op+":fault:wrong-bits", "%s(n=%d, off=%d) on len %d with a failing leaf returned %d bits, bit %d differs (err %v)", op, n, off, L, m, i, err)
+			return
+		}
+	}
+	if err != nil && errors.Is(err, io.EOF) && off <= L && off+m != L {
+		c.fail(op+":fault:error-turned-into-eof", "%s(n=%d, off=%d) on len %d: the leaf failed with an I/O error, the read reported EOF after %d bits, %d before the logical end", op, n, off, L, m, L-off-m)
+		return
+	}
+	if err != nil && !errors.Is(err, io.EOF) {
+		c.run.Count("fault:error-surfaced", 1)
+	}
+	if err == nil {
+		c.run.Count("fault:served-from-cache-or-short", 1)
 	}
 }
 
@@ -760,6 +820,15 @@ func (c *c01) opByte(nd *byteNode) {
 		n, err := nd.r.Read(p)
 		c.logf("  -> (%d,%v)", n, err)
 		c.run.Count("op:Read", 1)
+		if c.faultFired {
+			c.weakRead("Read", L*8, int64(k)*8, nd.pos*8, int64(n)*8, err, func() (int64, bool) {
+				if n >= 0 && nd.pos+int64(n) <= L && bytes.Equal(p[:n], nd.m[nd.pos:nd.pos+int64(n)]) {
+					return 0, true
+				}
+				return 0, false
+			})
+			return
+		}
 		if n < 0 || n > k {
 			c.fail("Read:count-out-of-range", "Read(%d) returned %d", k, n)
 			return
@@ -853,6 +922,7 @@ func (c *c01) history(id uint64, depth int, maxBytes int, ops int) {
 	c.rng = gen.New(c.run.Seed).Fork(id)
 	c.log = nil
 	c.failed = false
+	c.faultFired, c.weak, c.ended = false, false, false
 	c.kinds = map[string]bool{}
 	defer c.cleanupCase()
 	var opKinds strings.Builder
@@ -861,8 +931,11 @@ func (c *c01) history(id uint64, depth int, maxBytes int, ops int) {
 		nd := c.genByte(depth, maxBytes)
 		c.shape = nd.shape
 		c.logf("byte-level history on %s (len %d)", nd.shape, len(nd.m))
-		for i := 0; i < ops && !c.failed; i++ {
+		for i := 0; i < ops && !c.failed && !c.ended; i++ {
 			c.opByte(nd)
+			if c.faultFired {
+				c.ended = true
+			}
 		}
 		opKinds.WriteString("byte")
 	} else {
@@ -870,8 +943,11 @@ func (c *c01) history(id uint64, depth int, maxBytes int, ops int) {
 		c.shape = nd.shape
 		c.logf("bit-level history on %s (len %d bits)", nd.shape, nd.m.n)
 		nodes := []*bitNode{nd}
-		for i := 0; i < ops && !c.failed; i++ {
+		for i := 0; i < ops && !c.failed && !c.ended; i++ {
 			c.opBit(&nodes)
+			if c.faultFired {
+				c.ended = true
+			}
 		}
 		opKinds.WriteString("bit")
 	}
